@@ -1,4 +1,4 @@
-from ast import Attribute, Subscript, Load, NodeVisitor
+from ast import Attribute, Subscript, Load, NodeVisitor, Name as AstName
 
 from .compat import PY2
 from .scope import FuncScope, Flow, SourceScope, ClassScope, get_first_body_node_loc
@@ -107,6 +107,17 @@ class extract_visitor(NodeVisitor):
             name.flow = self.flow  # type: ignore[attr-defined]
             self.flow.add_name(AssignedName(name.id, eend, np(name), node.value))
         self.generic_visit(node)
+
+    def visit_AugAssign(self, node):
+        # type: (ast.AugAssign) -> None
+        self.visit(node.value)
+        name = node.target
+        if isinstance(name, AstName):
+            # the target is read and then bound again
+            name.flow = self.flow  # type: ignore[attr-defined]
+            self.flow.add_name(AssignedName(name.id, get_expr_end(node.value), np(name), node.value))
+        else:
+            self.visit(name)
 
     def visit_If(self, node):
         # type: (ast.If) -> None
